@@ -509,8 +509,15 @@ func samDrive(args []string) error {
 		var file []byte
 		want := []samItem{}
 		crlf := r.Intn(4) == 0
+		if sid%8 == 1 || sid%8 == 5 { // a header line can be long, too (4 KiB / 64 KiB buffers; exact powers of two)
+			nh = max(nh, 1)
+		}
 		for i := 0; i < nh; i++ {
 			h := samHeader(r)
+			if (sid%8 == 1 || sid%8 == 5) && i == nh-1 {
+				n := []int{5000, 4096, 33000, 65536, 70000, 8192}[(sid/8)%6]
+				h = "@CO\t" + strings.Repeat("h", n-4)
+			}
 			file = append(file, h...)
 			if crlf {
 				file = append(file, '\r')
@@ -550,6 +557,9 @@ func samDrive(args []string) error {
 			before := samProject(s)
 			ev := samEvent{Sid: sid, Op: "write", Mode: "write", Rec: before, Bytes: []int{}, Floats: [][]int{}, Want: []samItem{}, Items: []samItem{}, Clean: []int{}}
 			buf := &bytes.Buffer{}
+			if sid%4 == 1 {
+				failedWriteFirst(s.Write)
+			}
 			ev.Panic, _ = catch(func() { ev.WErr = s.Write(buf) != nil })
 			var bm []byte
 			p2, _ := catch(func() {
